@@ -648,6 +648,8 @@ ARITH = {
     "right shift count outside 0..63": ("Zahl", "Zahl", "a um b Bit nach rechts verschoben", [("1024", "64"), ("-8", "200"), ("7", "-3")], [("1024", "3"), ("-8", "63")]),
     "Kommazahl to Zahl outside the Zahl range": ("Kommazahl", None, "a als Zahl", [("10,0 hoch 30",), ("0 minus (10,0 hoch 30)",), ("0,0 durch 0,0",), ("1,0 durch 0,0",), ("9223372036854775807,0 mal 2,0",)],
                                                [("3,9",), ("-2,5",), ("4611686018427387904,0",), ("0,0",)]),
+    # |minimal Zahl| is the minimal Zahl again (two's complement): a sign test of the result must not be folded away
+    "sign of the Betrag of the minimal Zahl": ("Zahl", None, "((der Betrag von a) kleiner als 0 ist) als Zahl", [(MINZ,), ("(0 minus 4611686018427387904) mal 2",)], [("-5",), ("7",), ("0 minus 9223372036854775807",)]),
 }
 ARITH_FORMS = ("literal", "variable", "parameter", "list element")
 
@@ -1262,7 +1264,7 @@ def main():
     # (c2) multi-module programs
     sources += [multi_module(rng, i) for i in range(3 if quick else 60)]
     # (e) arithmetic whose LLVM instruction is undefined for the operands (and controls inside the domain)
-    sources += src_arith(rng, 5 if quick else 64, 1 if quick else 56)
+    sources += src_arith(rng, 6 if quick else 64, 1 if quick else 56)
     # (f) a value parameter whose only write is a Referenz call nested in an argument of another call; (g) errors whose result is dead
     sources += src_nested(rng, 5 if quick else 69)
     sources += src_dead(rng, 6 if quick else 25)
@@ -1278,9 +1280,20 @@ def main():
             if it[0]["gp"][0] not in tys:
                 pick.append(it)
                 tys.add(it[0]["gp"][0])
-        rest = [it for it in gpp if it not in same]
+        fwd = [it for it in gpp if it[0]["gp"][1] == "forward" and it[0]["gp"][2] == "same"]
+        rng.shuffle(fwd)
+        rest = [it for it in gpp if it not in same and it not in fwd]
         rng.shuffle(rest)
-        gpp = pick + rest[:2]
+        gpp = pick + fwd[:2] + rest[:1]
+    # (h') callees that are no plain call: overloaded operators with Referenz parameters, a sibling argument that hands the
+    #      variable to a nested call by Referenz (operand programs behave alike at every level: left to C08)
+    ckp = [it for it in c08gen.callee_kind_programs() if it[0]["ck"][0] != "operand"]
+    if quick:
+        zl = [it for it in ckp if it[0]["ck"][1] == "ZL"]
+        tx = [it for it in ckp if it[0]["ck"][1] != "ZL"]
+        rng.shuffle(tx)
+        ckp = zl + tx[:1]
+    gpp = gpp + [(dict(d, gp=list(d["ck"])), dict(kp, files={})) for d, kp in ckp]
     for d, gp in gpp:
         files = {"prog.ddp": gp["raw"].replace("@MOD@", "gmod")}
         for k, v in gp["files"].items():
